@@ -300,6 +300,7 @@ func c3Arg(op string) string {
 func genC03(g *G) {
 	genC03Lookups(g)
 	genC03Submit(g)
+	genC03Watch(g)
 	// exhaustive: every assignment of not-executed / executed / lookup-error to deliveries of 0..L proposals
 	L := g.Count(6, 8)
 	var rec func(prefix string)
